@@ -366,7 +366,10 @@ class Unit:
                 semi = find_at_depth0(m2, pos, bc, ';')
                 if semi < 0:
                     raise ExtractError('@droptail: no statement end after anchor')
-                txt = txt[:semi + 1] + '\n        vf_dropped_tail()\n    ' + txt[bc:]
+                # the anchor may sit inside nested blocks (an `else` branch): close them after the replacement call
+                inner = m2[bo + 1:semi]
+                depth = inner.count('{') - inner.count('}')
+                txt = txt[:semi + 1] + '\n        vf_dropped_tail()\n    ' + ('}' * depth) + txt[bc:]
                 notes.add('DROPTAIL', 'body after `%s` dropped (not under contract): %s' % (anc, ' '.join(lines).strip()))
         emit_name = s.opt('rename') or fn
         if s.opt('rename'):
